@@ -59,6 +59,7 @@ type Program struct {
 	viewOf    map[*ssa.Function]*ssa.Function
 	nonNilMemo map[interface{}]bool
 	soleStores map[*ssa.Global]*ssa.Store
+	atomicW    map[*ssa.Function]*ssa.Function
 }
 
 func loadProgram(root string) (*Program, error) {
